@@ -27,12 +27,12 @@ Definition run_op (op : hop) (d : node) : final :=
   match op with
   | HSet cs v f vo =>
       match set_value lit fl cs v f vo (init_state d) with
-      | SDone st => Done (fst st)
+      | SDone st => MDone (fst st)
       | SFailed st e => Failed (fst st) e
       end
   | HCreate segs v f vo =>
       match create_set lit fl segs v f vo d with
-      | SDone st => Done (fst st)
+      | SDone st => MDone (fst st)
       | SFailed st e => Failed (fst st) e
       end
   | HDelete cs => delete_nodes cs d
@@ -43,7 +43,7 @@ Fixpoint run_ops (ops : list hop) (d : node) (k : nat) : hfinal :=
   | [] => HDone d
   | op :: r =>
       match run_op op d with
-      | Done d' => run_ops r d' (S k)
+      | MDone d' => run_ops r d' (S k)
       | Failed d' e => HFailed d' e k
       end
   end.
